@@ -158,6 +158,12 @@ class ClassV(V):
                     for t in st.targets:
                         if isinstance(t, ast.Name) and t.id == name:
                             return ("attr", st.value, c)
+                        # a, b = x, y  at class level: the matching element of a literal right-hand side
+                        if isinstance(t, (ast.Tuple, ast.List)) and isinstance(st.value, (ast.Tuple, ast.List)) \
+                                and len(t.elts) == len(st.value.elts):
+                            for te, ve in zip(t.elts, st.value.elts):
+                                if isinstance(te, ast.Name) and te.id == name and not isinstance(ve, ast.Starred):
+                                    return ("attr", ve, c)
                 if isinstance(st, ast.AnnAssign) and isinstance(st.target, ast.Name) \
                         and st.target.id == name and st.value is not None:
                     return ("attr", st.value, c)
@@ -248,7 +254,7 @@ _APP_TY = {
     "bool": "bool", "Not": "bool", "Eq": "bool", "NotEq": "bool", "Lt": "bool",
     "LtE": "bool", "Gt": "bool", "GtE": "bool", "In": "bool", "NotIn": "bool",
     "Is": "bool", "IsNot": "bool", "isinstance": "bool", "And": "bool", "Or": "bool",
-    "fmt": "str", ".derive": "bytes", "unhex": "bytes", "int2be": "bytes", "hexw": "str", "bytes": "bytes",
+    "fmt": "str", "fstring": "str", ".derive": "bytes", "unhex": "bytes", "int2be": "bytes", "hexw": "str", "bytes": "bytes",
 }
 
 
@@ -265,6 +271,8 @@ def ty_of(t):
     if isinstance(t, App):
         if t.f == "Mod" and len(t.args) == 2 and ty_of(t.args[0]) == "int" and ty_of(t.args[1]) == "int":
             return "int"
+        if t.f in ("Or", "And", "min2", "max2") and len(t.args) == 2 and ty_of(t.args[0]) == ty_of(t.args[1]) and ty_of(t.args[0]) is not None:
+            return ty_of(t.args[0])               # `a or b` / `a and b` yield one of their operands
         if t.f in ("Add", "Sub", "Mult", "FloorDiv", "LShift", "RShift", "BitAnd", "BitOr",
                    "BitXor", "USub", "Pow"):
             tys = [ty_of(a) for a in t.args]
@@ -273,8 +281,10 @@ def ty_of(t):
             if t.f == "Add" and tys and all(x == tys[0] for x in tys):
                 return tys[0]
             return None
-        if t.f == "rev" or t.f == "slice":
+        if t.f == "rev" or t.f == "slice" or t.f == "setitem":
             return ty_of(t.args[0])
+        if t.f in ("list", "bytearray") and len(t.args) == 1:
+            return t.f
         if t.f == ".encode":
             return "bytes"
         if t.f == ".decode":
@@ -327,6 +337,18 @@ def mk_app(f, args=(), kw=()):
             args = args + tuple(d[k] for k in names[:len(d)])
             kw = ()
     n = len(args)
+    if n == 2 and f in ("BitOr", "BitAnd", "BitXor", "In", "NotIn", "Eq", "NotEq") and all(is_app(x, "flag") and isinstance(x.args[0], Const) for x in args) \
+            and args[0].args[1] == args[1].args[1]:
+        x, y, c = args[0].args[0].v, args[1].args[0].v, args[0].args[1]      # members of one enum.Flag class, by value
+        if f == "BitOr":
+            return App("flag", (Const(x | y), c))
+        if f == "BitAnd":
+            return App("flag", (Const(x & y), c))
+        if f == "BitXor":
+            return App("flag", (Const(x ^ y), c))
+        if f in ("In", "NotIn"):
+            return Const(((x & y) == x) == (f == "In"))                       # a in b  <=>  a & b == a
+        return Const((x == y) == (f == "Eq"))
 
     # ---- arithmetic / comparison folding on constants
     if f in _BINOPS and n == 2 and not kw:
@@ -359,6 +381,13 @@ def mk_app(f, args=(), kw=()):
             if w is not None and not isinstance(b, TupleV):
                 return App("hexw", (b, w))              # "%0{2W}x" % v: zero-padded lower-case hex, 2W digits
             return App("fmt", args)                     # other printf-style formatting stays opaque
+        if f == "FloorDiv" and isinstance(b, Const) and isinstance(b.v, int) and not isinstance(b.v, bool) and b.v > 1 \
+                and b.v & (b.v - 1) == 0 and ty_of(a) == "int":
+            return mk_app("RShift", (a, Const(b.v.bit_length() - 1)))    # x // 2^k == x >> k for every int
+        if f == "Mod" and isinstance(b, Const) and isinstance(b.v, int) and not isinstance(b.v, bool) and b.v > 0 and is_app(a, "Mult") \
+                and any(isinstance(x, Const) and isinstance(x.v, int) and not isinstance(x.v, bool) and x.v % b.v == 0 for x in a.args) \
+                and all(ty_of(x) == "int" for x in a.args):
+            return Const(0)                            # (k*m * x) % m == 0
         # arithmetic units
         if f in ("Add", "Sub") and isinstance(b, Const) and b.v == 0 and not isinstance(b.v, bool) and ty_of(a) == "int":
             return a
@@ -440,6 +469,8 @@ def mk_app(f, args=(), kw=()):
         if a._key > b._key:
             args = (b, a)
         return App(f, args)
+    if f == "Invert" and n == 1 and is_app(args[0], "flag"):
+        return App(f, args)
     if f in ("In", "NotIn") and n == 2:
         a, b = args
         if (isinstance(b, TupleV) and not b.items) or (isinstance(b, DictV) and not b.items) or \
@@ -451,6 +482,13 @@ def mk_app(f, args=(), kw=()):
                 return Const(r if f == "In" else not r)
             if any(i._key == a._key for i in b.items):
                 return Const(f == "In")
+            if 1 <= len(b.items) <= 4 and all(isinstance(i, Const) for i in b.items) and not isinstance(a, Const):
+                # x in (c1, c2, ..): x == c1 or x == c2 or ..  (each alternative becomes a fact of its own on a path)
+                acc = None
+                for i in reversed(b.items):
+                    e = mk_app("Eq", (a, i))
+                    acc = e if acc is None else mk_app("Or", (e, acc))
+                return acc if f == "In" else mk_app("Not", (acc,))
         if isinstance(a, Const) and isinstance(b, Const):
             try:
                 r = a.v in b.v
@@ -558,6 +596,8 @@ def mk_app(f, args=(), kw=()):
         return Const(binascii.hexlify(args[0].v).decode("ascii"))
     if f == ".hex" and n == 1 and not kw and ty_of(args[0]) == "bytes":
         return mk_app("hexs", args)                     # b.hex() == hexlify(b).decode()
+    if f == ".hex" and n == 1 and not kw and is_app(args[0], "memoryview") and len(args[0].args) == 1 and ty_of(args[0].args[0]) == "bytes":
+        return mk_app("hexs", args[0].args)             # memoryview(b).hex() == b.hex()
     if f in (".decode", ".encode") and n >= 1:
         a = args[0]
         enc = args[1] if n > 1 else dict(kw).get("encoding", Const("utf-8"))
@@ -604,6 +644,14 @@ def mk_app(f, args=(), kw=()):
             except Exception:
                 pass
         return App(f, args)
+    if f == ".__enter__" and n == 1 and not kw and is_app(args[0], "memoryview"):
+        return args[0]                                  # a memoryview is its own context-manager value
+    if f == "int.to_bytes" and n == 3 and not kw:
+        return mk_app(".to_bytes", args)                # int.to_bytes(x, n, order) == x.to_bytes(n, order)
+    if f == "int.bit_length" and n == 1 and not kw:
+        return mk_app("bit_length", args)
+    if f == "int.from_bytes" and n >= 1 and is_app(args[0], "memoryview") and len(args[0].args) == 1 and ty_of(args[0].args[0]) == "bytes":
+        return mk_app(f, (args[0].args[0],) + tuple(args[1:]), kw)     # the bytes of a view of b are b
     if f == "int.from_bytes" and n >= 1:
         order = args[1] if n > 1 else dict(kw).get("byteorder", Const("big"))
         if isinstance(order, Const) and order.v == "big" and not dict(kw).get("signed"):
@@ -666,6 +714,8 @@ def mk_app(f, args=(), kw=()):
                     return TupleV([Const(x) for x in sorted(i.v for i in a.items)], "list")
                 except Exception:
                     pass
+            if len(a.items) <= 1:
+                return TupleV(list(a.items), "list")
             if len(a.items) == 2:
                 x, y = sorted(a.items, key=lambda t: t._key)
                 return TupleV([App("min2", (x, y)), App("max2", (x, y))], "list")
@@ -695,7 +745,7 @@ def mk_app(f, args=(), kw=()):
         start = args[1].v if n == 2 else (kw[0][1].v if kw else 0)
         if isinstance(start, int):
             return TupleV([TupleV([Const(start + i), x], "tuple") for i, x in enumerate(args[0].items)], "list")
-    if f == "reversed" and n == 1 and not kw and isinstance(args[0], TupleV):
+    if f == "reversed" and n == 1 and not kw and isinstance(args[0], TupleV) and not any(is_app(i, "star") for i in args[0].items):
         return TupleV(list(args[0].items)[::-1], "list")
     if f == "range" and 1 <= n <= 3 and not kw and all(isinstance(a, Const) and isinstance(a.v, int) for a in args):
         try:
@@ -704,6 +754,12 @@ def mk_app(f, args=(), kw=()):
                 return TupleV([Const(i) for i in r], "list")
         except Exception:
             pass
+    if f == "all" and n == 1 and not kw and is_app(args[0], "maplam") and is_app(args[0].args[1], "hexs", "hexb") \
+            and is_app(args[0].args[0], "In") and isinstance(args[0].args[0].args[0], Sym):
+        alpha = args[0].args[0].args[1]
+        chars = alpha.v if isinstance(alpha, Const) else ("0123456789abcdefABCDEF" if isinstance(alpha, ExtV) and alpha.name == "string.hexdigits" else None)
+        if isinstance(chars, (str, bytes)) and all((c in chars) for c in ("0123456789abcdef" if isinstance(chars, str) else b"0123456789abcdef")):
+            return Const(True)                          # hexlify output consists of the digits 0-9a-f
     if f in ("any", "all") and n == 1 and not kw and isinstance(args[0], TupleV):
         acc = None
         for x in reversed(args[0].items):
@@ -726,6 +782,13 @@ def mk_app(f, args=(), kw=()):
     if f == "len" and n == 1 and is_app(args[0], "call") and len(args[0].args) == 2 and isinstance(args[0].args[0], Sym) \
             and args[0].args[0].n.startswith("entropy_f") and not args[0].kw:
         return args[0].args[1]                          # A5: entropy_f(n) returns exactly n bytes
+    if f == "len" and n == 1 and is_app(args[0], "setitem") and len(args[0].args) == 3:
+        return mk_app("len", (args[0].args[0],))        # item assignment keeps the length
+    if f == "len" and n == 1 and is_app(args[0], "list", "bytearray", "bytes", "tuple") and len(args[0].args) == 1 and not args[0].kw \
+            and ty_of(args[0].args[0]) in ("bytes", "list", "bytearray"):
+        return mk_app("len", (args[0].args[0],))        # list(b) / bytes(b) of a sequence: same number of items
+    if f == "len" and n == 1 and is_app(args[0], "hexs", "hexb") and len(args[0].args) == 1:
+        return mk_app("Mult", (Const(2), mk_app("len", args[0].args)))     # two hex digits per byte
     if f == "len" and n == 1:
         a = args[0]
         if isinstance(a, Const):
